@@ -271,6 +271,12 @@ impl From<Mapped<Unexpected>> for ConvErr {
 	}
 }
 
+impl From<Mapped<std::num::ParseIntError>> for ConvErr {
+	fn from(m: Mapped<std::num::ParseIntError>) -> Self {
+		ConvErr { offset: m.offset, found: None, expected: None }
+	}
+}
+
 impl From<Mapped<std::convert::Infallible>> for ConvErr {
 	fn from(m: Mapped<std::convert::Infallible>) -> Self {
 		ConvErr { offset: m.offset, found: None, expected: None }
@@ -429,6 +435,21 @@ pub fn replay_conv(rep: &mut Report, rec: &J) {
 	};
 	if exp != got.as_array().unwrap() {
 		rep.mismatch("C11.conv", json!({"what": "conversion does not report the kind mismatch at the offset of the offending fragment", "vector": rec, "type": shape, "observed": got}));
+	}
+	// a map whose KEY type does not parse from the key text: the error is reported at the KEY fragment of the first such entry.
+	// For a root object whose first key is not a decimal number below 256 that is fragment 2 (root 0, first entry 1, its key 2:
+	// CodeMapNav pre-order); when the first key does parse the case is left alone.
+	if let (Value::Object(o), true) = (&v, shape == "map(num)") {
+		if let Some(first) = o.entries().first() {
+			if first.key.as_str().parse::<u8>().is_err() {
+				rep.count("conv_calls");
+				match guarded(|| run_conv::<BTreeMap<u8, LNum>>(&v, &cm)) {
+					Ok(Err(e)) if e.offset == 2 && e.found.is_none() => (),
+					other => rep.mismatch("C11.conv", json!({"what": "a key that does not parse as the key type is not reported at the index of the key fragment", "vector": rec, "type": "map<u8>(num)",
+						"expected_offset": 2, "observed": match other { Ok(Ok(())) => json!("ok"), Ok(Err(e)) => json!([e.offset, e.found.map(kind_name)]), Err(p) => json!(["panic", p]) }})),
+				}
+			}
+		}
 	}
 	// maps anywhere in the type converted through the object traits (non-zero offsets)
 	let via = match shape.as_str() {
